@@ -519,15 +519,20 @@ def run_groups(ctx, groups, rng, stream):
         fl = "eu4" if enc == "w1252" else "raw"
         Mt = D.Mode("text", enc=enc)
         Mb = D.Mode("bin", flavor=fl, strategy=g["strat"], known=g["known"], ids=g["ids"])
-        if g.get("any"):
+        # [s_c10] wave 6 (props/C10_sizes.py): a group may bring its renderings, its expectations (by construction), its
+        # shape string, its resolver and its path lists itself (long / deep inputs that the recursive dedoc functions and the
+        # default buffers do not fit); want == "text": a text-only group (a size the binary format cannot express)
+        if "et" in g:
+            et, eb = g["et"], g["eb"]
+        elif g.get("any"):
             et, eb = any_root_expected(g, Mt), any_root_expected(g, Mb)
         else:
             et, eb = D.expected(sh, doc, Mt), D.expected(sh, doc, Mb)
-        txt = D.render_text(doc, rng, enc, style=styles[gi % 4])
-        b = D.render_bin(doc, fl)
-        res = D.resolver_spec(g["ids"], g["known"], "map")
-        shs = D.shape_str(sh)
-        mtb = max(32, D.max_token_len(doc, enc) + 4)
+        txt = g["txt"] if "txt" in g else D.render_text(doc, rng, enc, style=g.get("style") or styles[gi % 4])
+        b = g["bin"] if "bin" in g else (b"" if g["want"] == "text" else D.render_bin(doc, fl))
+        res = g["res"] if "res" in g else D.resolver_spec(g["ids"], g["known"], "map")
+        shs = g["shs"] if "shs" in g else D.shape_str(sh)
+        mtb = g["mtb"] if "mtb" in g else max(32, D.max_token_len(doc, enc) + 4)
         tp = ["slice", "tape"]
         if not g["hdr"]:
             tp.append("reader:%d:%s" % ([mtb, 64 + mtb, 32768][gi % 3], ["-", "1*", "7,3*"][gi % 3]))
@@ -540,12 +545,19 @@ def run_groups(ctx, groups, rng, stream):
             bp.append(["fslice", "freader:-", "freader:3,1*"][gi % 3])       # BinaryFlavor::deserialize_* (default strategy = Ignore)
         # the deserializer-returning builder methods called directly (harness paths added in wave 4)
         bp.append(["btape", "bslice", "breader:%d:2,9*" % (mtb + 64)][gi % 3])
+        if "tp" in g:          # [s_c10]
+            tp = list(g["tp"])
+        if "bp" in g:
+            bp = list(g["bp"])
+        if g["want"] == "text":
+            bp = []
         g0 = len(cases)
         for p in tp:
             cases.append("\t".join(["de.text", p, enc, shs, hx(txt)]))
         for p in bp:
             cases.append("\t".join(["de.bin", p, g["strat"], res, fl, shs, hx(b)]))
         meta.append((g0, len(tp), len(bp), et, eb))
+        g["_ncases"] = len(tp) + len(bp)          # [s_c10]
         ctx.count("kinds_" + g["tag"])
     impl, _ = ctx.correspond(stream, cases, nontrivial=nt, model=False)
     base = len(impl) - len(cases)
@@ -559,6 +571,12 @@ def run_groups(ctx, groups, rng, stream):
             if touts[0] != bouts[0]:
                 ctx.fail("text-bin-i64min", "x=%d: text gives %s, binary (I64 token) gives %s" % (-2 ** 63, touts[0][:80], bouts[0][:80]), gc, go, "equal values")
             continue
+        if g["want"] == "text":          # [s_c10] text-only group: every text path returns the value the document says
+            bad_t = next((i for i, o in enumerate(touts) if o != et), None)
+            if bad_t is not None:
+                ctx.fail("kinds-text-" + tag, "text path %s gives %s, the logical document says %s" % (gc[bad_t].split("\t")[1], touts[bad_t][:160], et[:160]),
+                         [gc[bad_t]], [touts[bad_t]], et[:400])
+            continue
         bnames = [c.split("\t")[1] for c in gc[nt_:]]
         if tag == "any-object" and et == eb and all(o == et for o in touts) and \
                 all((o == eb) if "tape" in p else (o == "ERR:syntax") for p, o in zip(bnames, bouts)):
@@ -566,6 +584,14 @@ def run_groups(ctx, groups, rng, stream):
             # visit_seq (no look-ahead for `=`), the sequence then meets the `=` of the first field
             ctx.fail("any-object-ondemand", "a dynamically typed target on a nested object: text %s = binary tape, binary %s gives %s" % (
                 et[:100], gc[nt_ + 1].split("\t")[1], bouts[1]), [gc[0], gc[nt_], gc[nt_ + 1]], [go[0], go[nt_], go[nt_ + 1]], et)
+            continue
+        if g.get("finding") and et == eb and all(o == et for o in touts) and any("tape" in p for p in bnames) and \
+                all((o == g["finding"][1]) if "tape" in p else (o == eb) for p, o in zip(bnames, bouts)):
+            # [s_c10] a recorded finding whose signature is: the text paths and the binary lexer paths give the value, the
+            # binary TAPE path gives the stated refusal (known_findings.json); any other outcome goes through the comparison below
+            j = next(i for i, p in enumerate(bnames) if "tape" in p)
+            ctx.fail(g["finding"][0], "text %s = binary %s, binary %s gives %s" % (et[:100], next(p for p in bnames if "tape" not in p), bnames[j], bouts[j]),
+                     [gc[0], gc[nt_ + j], gc[nt_ + 1 if j != 1 else nt_]], [go[0], go[nt_ + j], go[nt_ + 1 if j != 1 else nt_]], et)
             continue
         bad_t = next((i for i, o in enumerate(touts) if o != et), None)
         bad_b = next((i for i, o in enumerate(bouts) if o != eb), None)
